@@ -4240,6 +4240,24 @@ async fn handle_connected_state_no_dtls(
         let pc_temp = PeerConnection {
             inner: inner.clone(),
         };
+        // SDES keying (setup_sdes) reads the a=crypto lines of BOTH descriptions, but
+        // start_direct() flips ICE to Connected from inside set_remote_description():
+        // on the answerer before the local answer exists, on the offerer before the
+        // remote answer has been stored. Wait for both instead of failing the
+        // connection with "Missing crypto attributes for SDES".
+        if inner.config.transport_mode == TransportMode::Srtp {
+            loop {
+                let ready = inner.local_description.lock().is_some()
+                    && inner.remote_description.lock().is_some();
+                if ready {
+                    break;
+                }
+                if is_ice_failed_or_closed(*ice_state_rx.borrow()) {
+                    return true;
+                }
+                tokio::time::sleep(std::time::Duration::from_millis(5)).await;
+            }
+        }
         // For RTP/SRTP, we pass false as is_client, but it doesn't matter as start_dtls handles it
         let started = pc_temp.start_dtls(false).await;
         // Only hold a strong reference while it is needed: a strong `Arc` kept for the whole
